@@ -6,7 +6,8 @@ use serde::{Deserialize, Serialize};
 use serde_json::{Map, Value, json};
 use std::hash::{Hash, Hasher};
 
-pub const K_BASE: i64 = 1_000_000;
+/// tag range reserved for the payload field `k` (below 2^53, above any generated time / counter value)
+pub const K_BASE: i64 = 7_700_000_000_000_000;
 
 #[derive(Clone, Debug, Serialize, Deserialize, PartialEq)]
 pub enum FT {
